@@ -365,6 +365,18 @@ class SigmaDetection(ParentChainMixin):
                 source=self.source,
             )
 
+        # Maps are AND-linked and lists are OR-linked when they are parsed. A detection whose items
+        # are linked differently (e.g. the OR-linked detection items resulting from mapping one
+        # field name to multiple field names) can't be expressed this way.
+        default_linking = (
+            ConditionAND if SigmaDetectionItem in self_detection_item_types else ConditionOR
+        )
+        if len(self.detection_items) > 1 and self.item_linking is not default_linking:
+            raise sigma_exceptions.SigmaValueError(
+                "Can't convert detection into plain value because the linking of its items can't be expressed in a plain data structure",
+                source=self.source,
+            )
+
         detection_items = [  # first convert all detection items into a Python representation.
             detection_item.to_plain() for detection_item in self.detection_items
         ]
